@@ -17,7 +17,7 @@ import cachelib
 
 driver.validate_events = cachelib.validate_traces      # whole traces must stay together (see cachelib)
 
-STEP_ACTIONS = ("Stat", "Mkdir", "DlBegin", "DlEnd", "Retry", "Verify", "Parse", "DumpBegin", "DumpEnd", "Rename",
+STEP_ACTIONS = ("Stat", "Mkdir", "DlBegin", "DlEnd", "Retry", "Verify", "Parse", "DumpBegin", "DumpEnd", "DumpClose", "Rename",
                 "Cleanup", "Read", "Return", "Crash", "ProbeStart")
 
 
@@ -95,10 +95,10 @@ def run():
                 if not need <= g.crash_points:         # vacuity guard: Crash taken at every step boundary
                     raise MachineryError("%s: no Crash explored at %s" % (j["cfg"], sorted(need - g.crash_points)))
                 if j["graph"] == "2":
-                    limit = None if c.thorough else 4000
+                    limit = None if c.thorough else 3000
                     nwalk = 3000 if c.thorough else 300
                 else:
-                    limit = None if (c.thorough or j["graph"] != "1-n3") else 5000
+                    limit = None if (c.thorough or j["graph"] != "1-n3") else 4000
                     nwalk = 300 if c.thorough else 60
                 walks, covered = g.cover(rng if limit else None, limit)
                 cover_stats[j["cfg"][:-4]] = {"edges": g.nedges, "edges_covered": covered, "walks": len(walks)}
@@ -181,7 +181,7 @@ def run():
     c.assumptions = ["TLC 1.8 and CommunityModules Json/IOUtils/TLCExt",
                      "Linux fork / SIGKILL / rename semantics on the scratch file system (/verif/.scratch)",
                      "step boundaries are the patched module-level names of traffic_weaver.datasets._base "
-                     "(urlretrieve, time.sleep, os.makedirs, os.rename, open, pickle.dump, np.loadtxt, _sha256, "
+                     "(urlretrieve, time.sleep, os.makedirs, os.rename, open + close of the written file, pickle.dump, np.loadtxt, _sha256, "
                      "TemporaryDirectory); code that bypasses them is seen as fewer, larger steps (drift, not violation)",
                      "synthetic CSV payloads; pinned checksum = true SHA-256 of the genuine payload",
                      "calls with validate_checksum=False that cache an unverified payload are outside NeverUnverified/"
